@@ -1,6 +1,7 @@
 from common import COMMON_ASSUME
 
 PROP = dict(
+    technique='property-based testing: metamorphic order relation (memcmp order vs numeric order) on generated pairs and tuples',
     harness=['c05_order.c', 'vf_ref.c'],
     level_text=('generated-input search over pairs and short tuples: the sign '
                 'of memcmp over the common length of two tagged encodings must '
